@@ -463,6 +463,24 @@ namespace trk
                 r->on_allocate(p, n, sizeof(T));
             return (T *)p;
         }
+        // Not part of the std allocator interface; offered because a container may ask its allocator to grow a
+        // block (igris::allocator in std_portable.h may). Contract as documented there: a block of n elements
+        // with the old CONTENTS carried over bytewise, the old block released. The registry sees a new raw block
+        // and the release of the old one (with whatever was alive in it).
+        T *reallocate(T *p, size_t n)
+        {
+            if (!p)
+                return allocate(n);
+            Registry *r = cur();
+            auto z = r ? r->zones.find((uintptr_t)p) : decltype(r->zones.end())();
+            if (!r || z == r->zones.end())
+                return (T *)realloc((void *)p, n * sizeof(T)); // nobody is tracking this block: plain realloc
+            size_t oldn = z->second.n;
+            T *q = allocate(n);
+            memcpy((void *)q, (const void *)p, (oldn < n ? oldn : n) * sizeof(T));
+            deallocate(p, oldn);
+            return q;
+        }
         void deallocate(T *p, size_t n)
         {
             if (Registry *r = cur())
